@@ -131,7 +131,8 @@ CONTRACTS[(PATH, 'find_new_prefixes')] = Contract(
              'forall(lambda i: implies(0 <= i and i < ' + _NB + ' and best_inds[1][i] != blank_ind, '
              'len(result[0][i]) == len(A_prev[best_inds[0][i]]) + 1 and result[0][i][len(A_prev[best_inds[0][i]])] == best_inds[1][i]))',
              'forall(lambda i, e: implies(0 <= i and i < ' + _NB + ' and best_inds[1][i] != blank_ind and 0 <= e and e < len(A_prev[best_inds[0][i]]), '
-             'result[0][i][e] == A_prev[best_inds[0][i]][e]))'],
+             'result[0][i][e] == A_prev[best_inds[0][i]][e]))',
+             'forall(lambda i: implies(0 <= i and i < ' + _NB + ' and best_inds[1][i] != blank_ind, result[0][i][:-1] == A_prev[best_inds[0][i]]))'],
     loops={0: LoopSpec(counter='kk', iter_name='news',
                        modifies={'new_l_last': 'lambda i: best_inds[1][i] != blank_ind', 'A_new': 'lambda i: best_inds[1][i] != blank_ind'},
                        inv=['len(A_new) == ' + _NB, 'len(new_l_last) == ' + _NB,
@@ -327,6 +328,62 @@ def _build_boh(ex, st, args, kwargs):
     return ObjRef(z3.Int(fresh_name('bag')), 'BagOfHypotheses')
 
 
+def ctc_theory(ex, st):
+    """CTCB(t, w) / CTCNB(t, w): log-probability that the first t frames emit prefix w and end in blank / in the last symbol of w —
+    the textbook prefix-probability recurrences (Graves); CTC(w) = CTCB(T, w) (+) CTCNB(T, w).  Values are reals or -inf."""
+    from pyvc.arrays import as_array
+    X = as_array(st, st.env['logits'])
+    blank = to_int(X.shape[1]) - 1
+    SEQ = z3.SeqSort(z3.IntSort())
+    Bn = z3.Function('CTCB_ninf', z3.IntSort(), SEQ, z3.BoolSort())
+    Bv = z3.Function('CTCB_val', z3.IntSort(), SEQ, z3.RealSort())
+    Nn = z3.Function('CTCNB_ninf', z3.IntSort(), SEQ, z3.BoolSort())
+    Nv = z3.Function('CTCNB_val', z3.IntSort(), SEQ, z3.RealSort())
+
+    def sq(w):
+        return w.s if isinstance(w, SeqVal) else w
+
+    def B(t, w):
+        return XReal(False, Bn(to_int(t), sq(w)), Bv(to_int(t), sq(w)))
+
+    def NB(t, w):
+        return XReal(False, Nn(to_int(t), sq(w)), Nv(to_int(t), sq(w)))
+
+    def last(ws):
+        return ws[z3.Length(ws) - 1]
+
+    def b_def(t, w):
+        t, ws = to_int(t), sq(w)
+        step = s_add(lib.s_lae(B(t - 1, ws), NB(t - 1, ws)), X.get(t - 1, blank))
+        return z3.And(z3.Implies(t >= 1, to_z3(s_eq(B(t, ws), step))),
+                      z3.Implies(t == 0, z3.And(Bn(0, ws) == (z3.Length(ws) != 0), Bv(0, ws) == 0)))
+
+    def ext(t, w, c):
+        # frame t+1 emits c after prefix w: from blank always, from non-blank only if w does not already end in c
+        # (log domain: the product with the frame probability is distributed over the sum)
+        t, ws, c = to_int(t), sq(w), to_int(c)
+        xc = X.get(t, c)
+        return lib.s_lae(s_add(B(t, ws), xc), ite(z3.Or(z3.Length(ws) == 0, last(ws) != c), s_add(NB(t, ws), xc), NINF))
+
+    def nb_def(t, w):
+        t, ws = to_int(t), sq(w)
+        c = last(ws)
+        w1 = z3.SubSeq(ws, 0, z3.Length(ws) - 1)
+        step = lib.s_lae(s_add(NB(t - 1, ws), X.get(t - 1, c)), ext(t - 1, w1, c))
+        return z3.And(z3.Implies(z3.And(t >= 1, z3.Length(ws) >= 1), to_z3(s_eq(NB(t, ws), step))),
+                      z3.Implies(z3.Or(t == 0, z3.Length(ws) == 0), Nn(t, ws)))
+    x, y, x2, y2 = z3.Reals('x y x2 y2')
+    mono = (['LAE'], z3.ForAll([x, y, x2, y2], z3.Implies(z3.And(x <= x2, y <= y2), lib.LAEF(x, y) <= lib.LAEF(x2, y2)),
+                               patterns=[z3.MultiPattern(lib.LAEF(x, y), lib.LAEF(x2, y2))]))
+    ex.assumed.append('spec: CTCB/CTCNB are the textbook CTC prefix-probability recurrences; that CTCB(T,w) (+) CTCNB(T,w) is the log-sum over '
+                      'all alignments collapsing to w is validated by specs/ctc.py against enumeration, not proved')
+    ex.assumed.append('model: logaddexp is monotone in both arguments')
+    return {'MAXDEV': MAXDEV, 'NFINITE': SpecFunc(lambda x_: z3.Int(fresh_name('n_finite_unknown')), 'NFINITE'),
+            'CTCB': SpecFunc(B, 'CTCB', defn=b_def), 'CTCNB': SpecFunc(NB, 'CTCNB', defn=nb_def),
+            'CTCEXT': SpecFunc(ext, 'CTCEXT'),
+            'CTC': SpecFunc(lambda w: lib.s_lae(B(to_int(X.shape[0]), w), NB(to_int(X.shape[0]), w)), 'CTC')}, list(lib.LAE_AXIOMS) + [mono]
+
+
 _np = 'len(prefixes)'
 INV_DISTINCT = 'forall(lambda p, q: implies(0 <= p and p < q and q < ' + _np + ', prefixes[p] != prefixes[q]))'
 _SZ = ['n', 'lenPb', 'lenPnb', 'lenlast']
@@ -342,7 +399,23 @@ CONTRACTS[(PATH, DEC + '__call__')] = Contract(
             'truthy:_lm': True, 'listvars': {'prefixes': seq_codec(IntCodec)}, 'opaque_model:logprobs_max_deviation': _maxdev,
             'opaque_hook': _join_hook, 'opaque_model:build_boh': _build_boh},
     inline=['update_lm_things'], opaque=['logprobs_max_deviation', 'build_boh'],
-    ghost_at={'best_inds = top_k(': [
+    ghost_at={'total_Pnb = self.compute_Pnb(': [
+        'Pnb0 = total_Pnb.copy()',
+        # U1: extension of prefix l by the selected character j, before joining
+        'assert forall(lambda l, j: implies(0 <= l and l < len(prefixes) and 0 <= j and j < len(selected_chars), '
+        'Pnb0[l, j] <= CTCEXT(tt, prefixes[l], selected_chars[j])))',
+        # U2: prefix l kept with its last character repeated, before joining
+        'assert forall(lambda l: implies(0 <= l and l < len(prefixes) and len(prefixes[l]) >= 1, '
+        'Pnb0[l, Pnb0.shape[1] - 1] <= CTCNB(tt, prefixes[l]) + Pc[prefixes[l][len(prefixes[l]) - 1]]))',
+        'assert forall(lambda l: implies(0 <= l and l < len(prefixes) and len(prefixes[l]) == 0, isneginf(Pnb0[l, Pnb0.shape[1] - 1])))',
+    ], 'adjust_for_prefix_joining(total_Pnb': [
+        # U3: joining only removes mass from the extension columns
+        'assert forall(lambda l, j: implies(0 <= l and l < len(prefixes) and 0 <= j and j < total_Pnb.shape[1] - 1, total_Pnb[l, j] <= Pnb0[l, j]))',
+        # U4: the kept prefix after joining is bounded by its non-blank prefix probability one frame later
+        'assert forall(lambda l: implies(0 <= l and l < len(prefixes) and len(prefixes[l]) == 0, isneginf(total_Pnb[l, total_Pnb.shape[1] - 1])))',
+        'assert forall(lambda l: implies(0 <= l and l < len(prefixes) and len(prefixes[l]) >= 1, '
+        'total_Pnb[l, total_Pnb.shape[1] - 1] <= CTCNB(tt + 1, prefixes[l])))',
+    ], 'best_inds = top_k(': [
         'cells = best_inds',
         'assert len(cells[0]) >= 1',
         'assert forall(lambda j: implies(0 <= j and j < len(cells[0]), not isneginf(total_P[cells[0][j], cells[1][j]])))',
@@ -356,20 +429,25 @@ CONTRACTS[(PATH, DEC + '__call__')] = Contract(
         'assert forall(lambda j: implies(0 <= j and j < len(best_inds[1]), best_inds[1][j] == self._blank_ind or '
         '(0 <= best_inds[1][j] and best_inds[1][j] < logits.shape[1] - 1)))',
     ]},
-    theory=lambda ex, st: ({'MAXDEV': MAXDEV, 'NFINITE': SpecFunc(lambda x: z3.Int(fresh_name('n_finite_unknown')), 'NFINITE')}, []),
+    theory=ctc_theory,
     raises={'ValueError': 'MAXDEV > max_unnormalization'}, ensures_exc={'ValueError': 'MAXDEV > max_unnormalization'},
     requires=['self._lm is None', 'self._k >= 1', 'logits.shape[1] >= 1', 'self._blank_ind == logits.shape[1] - 1',
               # no +inf log-probability (implied by the normalisation check, which is opaque here)
               'forall(lambda t, c: implies(0 <= t and t < logits.shape[0] and 0 <= c and c < logits.shape[1], not isinf(logits[t, c])))',
               # ASSUMPTION on the input: blank has non-zero probability in every frame (otherwise a frame can leave no finite candidate)
               'forall(lambda t: implies(0 <= t and t < logits.shape[0], not isneginf(logits[t, logits.shape[1] - 1])))'],
-    ensures=[INV_DISTINCT, INV_CHARS, 'len(Pom) == ' + _np],
+    ensures=[INV_DISTINCT, INV_CHARS, 'len(Pom) == ' + _np,
+             # never over-counts: the visual score of a returned prefix is at most its CTC log-probability
+             'forall(lambda p: implies(0 <= p and p < ' + _np + ', Pom[p] <= CTC(prefixes[p])))'],
     loops={0: LoopSpec(counter='tt', types={'Plm': 'none', 'h_prev': 'none'}, inv=[
         ('n', _np + ' >= 1'), ('lenPb', 'len(Pb) == ' + _np), ('lenPnb', 'len(Pnb) == ' + _np), ('lenlast', 'len(last_chars) == ' + _np),
         ('nopinfPb', NOPINF % ('Pb', 'Pb')), ('nopinfPnb', NOPINF % ('Pnb', 'Pnb')),
         # every prefix of the beam has non-zero probability
         ('alive', 'forall(lambda p: implies(0 <= p and p < ' + _np + ', not (isneginf(Pb[p]) and isneginf(Pnb[p]))))'),
-        ('distinct', INV_DISTINCT), ('last', INV_LAST), ('chars', INV_CHARS)],
+        ('distinct', INV_DISTINCT), ('last', INV_LAST), ('chars', INV_CHARS),
+        ('tt', 'tt <= logits.shape[0]'),
+        ('ubPb', 'forall(lambda p: implies(0 <= p and p < ' + _np + ', Pb[p] <= CTCB(tt, prefixes[p])))'),
+        ('ubPnb', 'forall(lambda p: implies(0 <= p and p < ' + _np + ', Pnb[p] <= CTCNB(tt, prefixes[p])))')],
         uses={'distinct': _SZ + ['distinct', 'last'], 'last': _SZ + ['last'], 'chars': _SZ + ['chars'],
               'alive': _SZ + ['alive', 'nopinfPb', 'nopinfPnb'], 'nopinfPb': _SZ + ['nopinfPb', 'nopinfPnb'], 'nopinfPnb': _SZ + ['nopinfPb', 'nopinfPnb']})},
 )
